@@ -14,10 +14,14 @@ type Engine struct {
 func (Engine) Name() string { return "E1-lru-simulator" }
 
 func (e Engine) Gen(prop, tier string, r *detsim.Rand) interface{} {
+	var p *Plan
 	if prop == "C09" {
-		return GenC09(r, tier)
+		p = GenC09(r, tier)
+	} else {
+		p = GenC10(r, tier, e.Shape)
 	}
-	return GenC10(r, tier, e.Shape)
+	p.Cfg.Clock = simsync.ClockMode(r.Intn(4)) // the last draw: everything else of the plan is what it was before the clock existed
+	return p
 }
 
 // GenIndexed returns the n-th case of the systematic corpus of C09 (every short operation sequence).
@@ -69,6 +73,11 @@ func (Engine) Run(plan interface{}, ch detsim.Chooser) *detsim.RunReport {
 		rep.Faults.Add("F9_preemptions", int64(r.Preempt))
 		rep.Faults.Add("F10_pyield_switches", int64(r.PYieldSwitch))
 		rep.Faults.Add("F11_stall_steps", int64(r.StallSteps))
+		rep.Faults.Add("F14_clock_leaps", int64(r.ClockJumps))
+		rep.Faults.Add("F14_clock_equal_readings", int64(r.ClockTies))
+		rep.Counters.Add("clock_readings", int64(r.ClockReads))
+		rep.Counters.Add("sleeps", int64(r.Sleeps))
+		rep.Counters.Add("simulated_clock_us", r.SimNanos/1000)
 		rep.Probes.Add("stall_while_holding_lock", int64(r.StallHolding))
 		rep.Probes.Add("parked_on_held_lock", int64(r.LockWaits))
 		rep.Counters.Add("context_switches", int64(r.Switches))
